@@ -178,4 +178,6 @@ class CardsMonitor:
         if replenished:
             # everything reserved went back into the deck first
             pass
+        if st.board_count >= 3:
+            ctx.counters['states_with_3+_boards'] += 1
         self._prev = cur
